@@ -253,6 +253,31 @@ func c09Run(t *testing.T, st *vstat.Stats, p c09Plan) (v *viol) {
 			st.ClassN("control-rejected(trivial)", tried)
 			return
 		}
+		// the genuine message has been processed now: the same board entry with an altered payload (identifier, sender
+		// and signature untouched) is still a message whose signature does not verify, whatever the node remembers
+		afterGenuine := kvSnapshot(nd)
+		for _, mu := range p.Muts {
+			switch mu.Kind {
+			case "flip-struct", "flip-body", "flip-digit", "insert", "delete", "append", "truncate-data", "empty-data":
+			default:
+				continue
+			}
+			mm, ok := c09Apply(tr, step.Msg, mu)
+			if !ok {
+				continue
+			}
+			perr := nd.Svc.ProcessMessage(mm)
+			changed := existingStateChanged(afterGenuine, kvSnapshot(nd))
+			if perr == nil {
+				v = violf("accepted-after-genuine:"+mu.Kind, "state %q, event %s from %s: after the genuine message was processed, the same entry with a %s-altered payload was processed without error (changed: %v)", step.State, step.Msg.Event, step.Msg.SenderAddr, mu.Kind, changed)
+				return
+			}
+			if len(changed) > 0 {
+				v = violf("state-changed-after-genuine:"+mu.Kind, "state %q, event %s: after the genuine message, its %s-altered copy was rejected (%v) but changed %v", step.State, step.Msg.Event, mu.Kind, clip(perr.Error(), 120), changed)
+				return
+			}
+			st.Class("altered-copy-after-genuine:" + mu.Kind)
+		}
 		for _, k := range kinds {
 			st.Class("mutant:" + k)
 			st.NonTrivial(fmt.Sprintf("%s/%d/%d/%d/%s", p.Trace, p.N, p.T, step.K, k))
